@@ -798,3 +798,152 @@ def zip_alignment(ctx, rule, f, what):
                 'objects are selected on the strength of another object\'s check',
             )
     return n
+
+
+def adapter_delete_discipline(ctx, rule):
+    """What the commands that remove objects rely on in every adapter's delete(name):
+    (a) the removing request addresses the object called `name` - a request that removes "whatever a lookup returned"
+        without comparing it with `name` removes a neighbour when the named object is already gone;
+    (b) delete returns normally only when the object is gone afterwards: the only faults it may absorb are the store's
+        "there is no such object" answers.  A refused removal (403, retention) reported as success lets
+        delete_snapshots go on to remove the chunks of a snapshot that is still listed."""
+    from ..cfg import cfg_of
+    from .backends import backend_classes, own_methods, transport_calls
+
+    corpus = ctx.corpus
+    GONE = {'NOT_FOUND', 'no_such_file', 'already_hidden', 404, 'NoSuchKey', 'file_not_present'}
+    n = 0
+    for ci in backend_classes(corpus):
+        d = own_methods(corpus, ci).get('delete')
+        if d is None:
+            continue
+        n += 1
+        ctx.analysed(d)
+        name = d.node.args.args[1].arg if len(d.node.args.args) > 1 else None
+        local = ci.module.rel.endswith('local.py')
+        cfg = cfg_of(d.node)
+        tcs = transport_calls(d, local)
+        if not local:
+            tcs = [c for c in tcs] + [c for c in calls_in(d.node) if (dotted(c.func) or '').startswith('self._make_request')]
+        for c in tcs:
+            st = enclosing_stmt(c)
+            # names the call's arguments are computed from (one level of local definitions)
+            mentioned = {x.id for a in list(c.args) + [k.value for k in c.keywords] + ([c.func.value] if isinstance(c.func, ast.Attribute) else []) for x in ast.walk(a) if isinstance(x, ast.Name)}
+            frontier, seen = set(mentioned), set()
+            while frontier:
+                v = frontier.pop()
+                if v in seen:
+                    continue
+                seen.add(v)
+                for a in walk_local(d.node):
+                    if isinstance(a, ast.Assign) and any(isinstance(t, ast.Name) and t.id == v for t in a.targets):
+                        frontier |= {x.id for x in ast.walk(a.value) if isinstance(x, ast.Name)}
+            carries = name in seen
+            # lookups (GET-like listing helpers) are not removals
+            is_lookup = any(w in (dotted(c.func) or '') for w in ('list', 'get', 'head'))
+            if carries and not is_lookup:
+                # the name must reach the REQUEST, not only an earlier lookup the request is built from
+                direct = {x.id for a in list(c.args) + [k.value for k in c.keywords] + ([c.func.value] if isinstance(c.func, ast.Attribute) else []) for x in ast.walk(a) if isinstance(x, ast.Name)}
+                frontier, seen2 = set(direct), set()
+                via_lookup = False
+                while frontier:
+                    v = frontier.pop()
+                    if v in seen2:
+                        continue
+                    seen2.add(v)
+                    for a in walk_local(d.node):
+                        if isinstance(a, ast.Assign) and any(isinstance(t, ast.Name) and t.id == v for t in a.targets):
+                            if any(isinstance(x, (ast.Await, ast.Call)) and any(w in (dotted(getattr(x, 'func', None) or getattr(getattr(x, 'value', None), 'func', None)) or '') for w in ('list', '.get', 'head')) for x in ast.walk(a.value)):
+                                via_lookup = True
+                                continue
+                            frontier |= {x.id for x in ast.walk(a.value) if isinstance(x, ast.Name)}
+                carries = name in seen2
+            if is_lookup:
+                continue
+            compared = any(isinstance(t, ast.Compare) and any(isinstance(o, (ast.Eq, ast.NotEq)) for o in t.ops) and any(isinstance(x, ast.Name) and x.id == name for x in ast.walk(t)) for t in ast.walk(d.node))
+            ctx.check(
+                carries or compared,
+                rule,
+                f'{func_label(d)}|removal-addresses-the-named-object',
+                loc(d, c),
+                f'{ci.name}.delete: the removing request `{src(c.func, 40)}(…)` is addressed by the `{name}` argument',
+                f'{ci.name}.delete: the removing request `{src(c.func, 40)}(…)` is not built from `{name}` (it removes what an earlier lookup returned, without comparing that with `{name}`): '
+                'deleting a name that is already gone removes another object - a chunk or snapshot that is still referenced',
+            )
+        for t in walk_local(d.node):
+            if not isinstance(t, ast.Try):
+                continue
+            for h in t.handlers:
+                caught = handler_catches(h)
+                if caught and all(x.rsplit('.', 1)[-1] == 'FileNotFoundError' for x in caught):
+                    continue
+                gone_edges = []
+                for i in [x for x in ast.walk(h) if isinstance(x, ast.If)]:
+                    consts = {x.value for x in ast.walk(i.test) if isinstance(x, ast.Constant)} | {x.attr for x in ast.walk(i.test) if isinstance(x, ast.Attribute)}
+                    if consts & GONE:
+                        gone_edges += cfg.nodes_of(i, 'true')
+                swallow = None
+                for hn in cfg.nodes_of(h, 'handler'):
+                    swallow = swallow or cfg.path(hn, [cfg.exit], avoid=gone_edges)
+                ctx.check(
+                    swallow is None,
+                    rule,
+                    f'{func_label(d)}|delete-absorbs-only-already-gone',
+                    loc(d, h),
+                    f'{ci.name}.delete: a fault is absorbed only on the store\'s "no such object" answers',
+                    f'{ci.name}.delete: the handler at line {h.lineno} lets delete return normally for a fault that is not "no such object" (e.g. a refused removal): the caller takes the object for gone - '
+                    'delete_snapshots then removes the chunks of a snapshot that is still listed',
+                )
+    ctx.floor(rule, 'adapter delete methods', n, 3)
+
+
+def queue_put_retries_until_done(ctx, rule):
+    """The chunk producer hands every chunk to the workers: a put() that times out on a full queue is tried again until
+    it succeeds; the only other way out is the abort flag.  A handler for queue.Full from which the producer can go on
+    to the next chunk (or report the chunk as queued) drops that chunk: its table entry stays, its object is never
+    uploaded and its ranges are never recorded."""
+    from ..cfg import cfg_of
+
+    corpus = ctx.corpus
+    sn = corpus.func('repository', 'Repository.snapshot')
+    n = 0
+    for f in [sn] + list(sn.all_nested()):
+        for t in walk_local(f.node):
+            if not isinstance(t, ast.Try):
+                continue
+            puts = [c for st in t.body for c in ast.walk(st) if isinstance(c, ast.Call) and isinstance(c.func, ast.Attribute) and c.func.attr in ('put', 'put_nowait')]
+            hs = [h for h in t.handlers if any(x.rsplit('.', 1)[-1] == 'Full' for x in handler_catches(h)) or is_catch_all(h)]
+            if not puts or not hs:
+                continue
+            n += 1
+            ctx.analysed(f)
+            cfg = cfg_of(f.node)
+            avoid = [x for c in puts for x in cfg.nodes_of(enclosing_stmt(c), ('stmt',))]
+            # abort edges: the edge on which <event>.is_set() holds
+            for s in walk_local(f.node):
+                if isinstance(s, (ast.If, ast.While)):
+                    tt, neg = s.test, False
+                    while isinstance(tt, ast.UnaryOp) and isinstance(tt.op, ast.Not):
+                        tt, neg = tt.operand, not neg
+                    if isinstance(tt, ast.Call) and isinstance(tt.func, ast.Attribute) and tt.func.attr == 'is_set':
+                        avoid += cfg.nodes_of(s, 'false' if neg else 'true')
+            outer = [a for a in ancestors(t) if isinstance(a, (ast.For, ast.AsyncFor)) and is_within_(a, f.node)]
+            targets = [cfg.exit] + [x for a in outer for x in cfg.nodes_of(a, 'loop')]
+            drop = None
+            for h in hs:
+                for hn in cfg.nodes_of(h, 'handler'):
+                    drop = drop or cfg.path(hn, targets, avoid=avoid)
+            ctx.check(
+                drop is None,
+                rule,
+                f'{func_label(f)}|full-queue-retries-the-put',
+                loc(f, t),
+                f'{f.name}: after queue.Full the same chunk is put again (or the abort flag ends the producer)',
+                f'{f.name}: after queue.Full the producer can move on without the chunk having been queued: the chunk is in the table but is never uploaded and its ranges are never recorded '
+                '(the snapshot references an object that was not stored / files lose ranges)',
+            )
+    ctx.floor(rule, 'queue put with a Full handler in snapshot', n)
+
+
+def is_within_(a, root):
+    return any(a is x for x in ast.walk(root))
